@@ -288,7 +288,11 @@ def check_L_invariant_dominated(S, p):
         num = sum(Fraction(c_) * ((Fraction(i_, n1) - Fraction(j_, n2)) ** 2 - Fraction(i_, n1) * (1 - Fraction(i_, n1)) / (n1 - 1) - Fraction(j_, n2) * (1 - Fraction(j_, n2)) / (n2 - 1))
                   for (i_, j_), c_ in cells.items())
         den = sum(Fraction(c_) * (Fraction(i_, n1) * (1 - Fraction(j_, n2)) + Fraction(j_, n2) * (1 - Fraction(i_, n1))) for (i_, j_), c_ in cells.items())
+        # Fst's numerator is a sum of terms of both signs: the error of a correct evaluation is relative to the sum of their MAGNITUDES
+        num_abs = sum(Fraction(c_) * ((Fraction(i_, n1) - Fraction(j_, n2)) ** 2 + Fraction(i_, n1) * (1 - Fraction(i_, n1)) / (n1 - 1) + Fraction(j_, n2) * (1 - Fraction(j_, n2)) / (n2 - 1))
+                      for (i_, j_), c_ in cells.items())
         exact = {"sum": Fraction(L), "f2": f2, "pi-xy": pixy, "fst": num / den if den else None}
+        slack = {"fst": (num_abs / den) / 10 ** 9 if den else 0}
         S.count("L_invariant_dominated_spectra")
         wit = {"level": "L", "shape": [n1 + 1, n2 + 1], "cells": [[list(k_), v_] for k_, v_ in sorted(cells.items())]}
         for nm, e in exact.items():
@@ -298,7 +302,7 @@ def check_L_invariant_dominated(S, p):
             v = r.get(nm, {})
             got = h2f(v["v"]) if "v" in v else float("nan")
             # relative: these values are tiny when invariant sites dominate, an absolute allowance would excuse anything
-            if not (math.isfinite(got) and abs(Fraction(got) - e) <= abs(e) / 10 ** 9 + Fraction(1, 10 ** 30)):
+            if not (math.isfinite(got) and abs(Fraction(got) - e) <= abs(e) / 10 ** 9 + slack.get(nm, 0) + Fraction(1, 10 ** 30)):
                 S.viol("C06:site-definition:%s" % nm, "[L joint spectrum %dx%d with %d invariant of %d sites] %s = %.12g, from the sites %.12g" % (
                     n1 + 1, n2 + 1, cells[(0, 0)], L, nm, got, float(e)), wit)
         S.case(key=digest(["invariant", n1, n2, sorted(cells.items())]), nontrivial=True)
